@@ -937,9 +937,9 @@ def generate(rng, tier):
                 c['pidf'] = rng.choice([0, 1])
             out.append(c)
         out += [_outside(rng) for _ in range(120)]
-        out += _restarts(rng, 150) + _ops_cases(rng, 40)
+        out += _restarts(rng, 90) + _ops_cases(rng, 40)
     else:
-        for c in rng.sample(grid, 48):
+        for c in rng.sample(grid, 40):
             c = dict(c)
             if rng.random() < 0.15:
                 c['nw'] = 2
@@ -948,7 +948,7 @@ def generate(rng, tier):
                 c['pidf'] = rng.choice([0, 1])
             out.append(c)
         out += [_outside(rng) for _ in range(10)]
-        out += _restarts(rng, 9) + _ops_cases(rng, 6)
+        out += _restarts(rng, 6) + _ops_cases(rng, 6)
     _prefetch(_PENDING + out)
     del _PENDING[:]
     return out
